@@ -132,6 +132,12 @@ var c12UserConfs = []struct {
 	{"idle-5s", func() *quic.Config { return &quic.Config{MaxIdleTimeout: 5 * time.Second} }},
 	{"idle-5min", func() *quic.Config { return &quic.Config{MaxIdleTimeout: 5 * time.Minute} }},
 	{"few-streams", func() *quic.Config { return &quic.Config{MaxIncomingStreams: 5, MaxIncomingUniStreams: 5} }},
+	{"refuse-streams", func() *quic.Config { return &quic.Config{MaxIncomingStreams: -1, MaxIncomingUniStreams: -1} }},
+	{"many-streams", func() *quic.Config { return &quic.Config{MaxIncomingStreams: 1 << 20, MaxIncomingUniStreams: 1 << 20} }},
+	{"keepalive-1s", func() *quic.Config { return &quic.Config{KeepAlivePeriod: time.Second} }},
+	{"idle-1s-no-mtu", func() *quic.Config {
+		return &quic.Config{MaxIdleTimeout: time.Second, DisablePathMTUDiscovery: true}
+	}},
 }
 
 var c12Scenarios = []string{"sd-bidi-local", "sd-bidi-remote", "sd-uni", "max-data", "streams-bidi", "streams-uni", "cids", "datagram", "idle", "own-record"}
@@ -641,8 +647,8 @@ func TestVerifC12(t *testing.T) {
 		for fi := range c12Fingerprints {
 			for si := range c12Scenarios {
 				for ci := range c12UserConfs {
-					if ci > 0 && !e.Thorough() {
-						continue
+					if ci > 0 && !e.Thorough() && si < 4 {
+						continue // the multi-megabyte window scenarios run with every user Config only in thorough
 					}
 					if !e.Thorough() && fi%2 == 1 && si < 4 {
 						continue // the IPv6 / B variants repeat the multi-megabyte window scenarios only in thorough
@@ -651,7 +657,7 @@ func TestVerifC12(t *testing.T) {
 				}
 			}
 		}
-		return cfgs, fmt.Sprintf("%d generated transport-parameter lists (baseline + one limit at a time over {absent, 0, small, Config default -1/0/+1, large}) x the boundary scenario of that limit x user Configs; 7 built-in fingerprints x %d boundary scenarios (slow reader per stream type and per connection, maximum concurrent streams, connection ID issuance, DATAGRAM at the advertised size, silence just below the advertised idle timeout) x user Configs {zero%s}", len(gens), len(c12Scenarios), map[bool]string{true: ", small/large windows, datagrams on, idle 5s/5min, few streams", false: ""}[e.Thorough()])
+		return cfgs, fmt.Sprintf("%d generated transport-parameter lists (baseline + one limit at a time over {absent, 0, small, Config default -1/0/+1, large}) x the boundary scenario of that limit x user Configs; 7 built-in fingerprints x %d boundary scenarios (slow reader per stream type and per connection, maximum concurrent streams, connection ID issuance, DATAGRAM at the advertised size, silence just below the advertised idle timeout) x user Configs {zero, small/large windows, datagrams on, idle 1s/5s/5min, few / refused (-1) / 2^20 streams, keep-alive, no MTU discovery}%s", len(gens), len(c12Scenarios), map[bool]string{true: "", false: " (window scenarios of the built-in fingerprints with the zero Config only)"}[e.Thorough()])
 	}
 	part := explore.Part{Name: "limits"}
 	part.Run = func(e explore.Env) *explore.Report {
